@@ -4,6 +4,26 @@ that the manifest stays valid and consistent while checks are added)."""
 import json, sys
 
 CHECKS = {
+ "C15": ("exploration",
+         "runtime reference interpreter of the entry list vs the destination tree read back with Lstat/Readlink; exhaustive short sequences x tar formats x privilege",
+         "A reference interpreter reads each entry sequence into an abstract tree (last entry per path wins, implicit parents without metadata, directory metadata final); the real Unpack runs as root and as uid 65534 inside a chroot and the destination is compared field by field (kind, content, permission bits, mtime, link target, no extra paths). Conflict-free representable sequences must unpack; hard link / device / fifo entries (also inserted at every position of PRNG sequences) must make it fail.",
+         "Sequences whose sequential reading is itself undefined (entry over an existing link, file vs directory conflicts) are counted but not judged; implicit parents' metadata, symlink mtimes and the destination root are not compared.",
+         "DESIGN.md §5 C15"),
+ "C02": ("exploration",
+         "runtime round-trip monitor: materialise tree, real Pack + Unpack, recursive Lstat/Readlink/content comparison; generated trees + exhaustive mode and mtime sweeps x options x privilege",
+         "Generated trees (odd names, all 512 file modes, read-only and empty directories, fractional / extreme mtimes, in-tree relative links of every shape) are packed with all four option sets and unpacked into an empty directory as root and as an unprivileged uid; source and result are read back independently and compared on path set, kind, content, permission bits, link target and mtime rounded to the second.",
+         "Root's own metadata and symlink mtimes are not compared; unprivileged trees keep owner read/search permission.",
+         "DESIGN.md §5 C02"),
+ "C05": ("exploration",
+         "runtime monitor: independent decode of the produced slug compared with the tree description and the physical target of every link; Unpack of the result; exhaustive link shapes x option sets",
+         "A world with a prefix-sharing sibling and canary-filled outside area gets links of 24 shapes at 3 depths; each is packed under {dereference} x {ignore} x 5 allow-lists (exhaustive for single links, PRNG for combinations). The slug is decoded with archive/tar and every entry is checked: no canary without dereferencing, no out-of-tree or root-climbing link stored without allow-list, refusal is an IllegalSlugError, dereferenced content equals the physical target, and Unpack accepts slugs from all-relative trees.",
+         "Out-of-tree is decided component-wise on the place the target names; absolute in-tree links may be stored as links (pinned by the repository's tests).",
+         "DESIGN.md §5 C05"),
+ "C20": ("exploration",
+         "runtime monitor: Meta.Files / Meta.Size vs an independent archive/tar decode of every slug produced by the C02 and C05 workloads",
+         "Every successful Pack over the C02 trees and the C05 link worlds (dereferenced files and directories, ignored subtrees, allow-lists, empty trees) is decoded independently; Meta.Files must equal the header names in order, Meta.Size must equal the content bytes read back for regular entries and the sum of their header sizes.",
+         "No claim when Pack fails.",
+         "DESIGN.md §5 C20"),
  "C01": ("exploration",
          "runtime snapshot-diff monitor (incl. ctime/inode/content hash) around Unpack in a chroot arena; exhaustive short entry sequences + PRNG + reader faults at every offset",
          "Each hostile archive is unpacked by the real Unpack inside a chroot whose every path outside dst is snapshotted before and after the call (type, mode, owner, size, nlink, inode, mtime, ctime, link target, content hash); any difference, on success or error, is a violation. Sequences: all singles x 4 arenas x 9 allow-lists, all pairs (quick) / triples (thorough) of a 46-entry alphabet covering every name/target shape x type, PRNG sequences, link-focused sequences, and streams with the reader failing or ending at every byte offset.",
